@@ -200,9 +200,18 @@ class Chooser:
         c = self.cs[self.i]
         self.i += 1
         with ResumedTracing():
-            v = realize(c % n)
-        self.trace.append(int(v))
-        return int(v)
+            # binary search on the symbolic value: log2(n) two-way forks instead of a chain of n
+            # "value == k ?" decisions
+            v = c % n
+            lo, hi = 0, n
+            while hi - lo > 1:
+                mid = (lo + hi) // 2
+                if v < mid:
+                    hi = mid
+                else:
+                    lo = mid
+        self.trace.append(lo)
+        return lo
 
     def choose(self, seq):
         return seq[self.pick(len(seq))]
